@@ -658,6 +658,14 @@ def gen_case(rng, ens, tier, max_trials=None):
         else:
             table.append({"name": names[j], "oid": oid, "tree": tree})
             oid += 1
+    for e in list(table):
+        if e["tree"][0] == "X" and rng.random() < 0.6:
+            # a member of a composite exchange move is ALSO scheduled on its own, under another table name (the same
+            # object, as in `mc.add_move(m, name="single"); mc.add_move(m * 2, name="composite")`): whatever the composite
+            # leaves pending on the member (a one-shot pre-selection) would be consumed by the member's next trial
+            r = rng.choice(e["tree"][1])
+            if not any(t["name"] == f"x{r}" for t in table):
+                table.append({"name": f"x{r}", "oid": 1000 + r, "tree": ["L", r]})
     if ens == "grand":
         xs = [i for i in range(nobj) if objs[i]["kind"] == "exch"]
         if len(xs) >= 2 and case.get("template") and rng.random() < 0.35:
@@ -703,6 +711,13 @@ def gen_case(rng, ens, tier, max_trials=None):
             r = rng.choice(tree_refs(e["tree"]))
             if objs[r]["labels"]:
                 tr["presel"].append([r, "D", rng.choice(objs[r]["labels"])])
+        if e["tree"][0] == "X" and rng.random() < 0.3:
+            # one-shot pre-selections (`to_delete_label`, `to_add_atoms`) placed on MEMBERS of a composite exchange move
+            # before a trial of the composite: the composite draws its own targets (a pre-selected species is inserted
+            # by the insertion branch), and none of them may be left on a member afterwards — accepted, rejected or failed
+            for r in rng.sample(sorted(set(e["tree"][1])), rng.randint(1, len(set(e["tree"][1])))):
+                lab = rng.choice(objs[r]["labels"] + [99]) if objs[r]["labels"] else 0
+                tr["presel"].append(rng.choice([[r, "X", lab], [r, "X", lab], [r, "A"], [r, "B"]]))
         if (e["tree"][0] == "L" and objs[e["tree"][1]]["kind"] in ("disp", "exch") and rng.random() < 0.06
                 and sum(1 for t in table if e["tree"][1] in tree_refs(t["tree"])) == 1):
             tr["replace"] = True        # the entry's move object is replaced by an identical fresh one before this trial
